@@ -2,6 +2,7 @@
 
 from __future__ import annotations
 
+import asyncio
 import os
 
 from collections import Counter
@@ -29,6 +30,7 @@ RULE = (
     ' Round 5: cases run under generated time zones and compare the time replies of both versions.'
     ' Round 7: fractional report payloads; sequences of the same report (growing, shrinking, repeating) with commands parked in between.'
     ' Round 8: req / internal application sends.'
+    ' Round 11: sends that re-use one Message object with changed fields; `rx_race` (a newer command is sent while the wake that releases the older one is writing).'
     ' Round 9: writes compared in order; re-issued parked commands; report sequences ending empty.'
 )
 ASSUMPTIONS = [
@@ -141,6 +143,21 @@ def enumerate_cases(tier: str):
                 ops = [["rx", f"2;255;3;0;{wake_t};5\n"]] + [["send", [2, 0, 1, 0, t, f"a{t}"], None] for t in (0, 2, 3)]
                 ops += [["send", [2, 0, 1, 0, (0, 2, 3)[i], f"b{i}"], None] for i in again] + [["rx", f"2;255;3;0;{wake_t};6\n"], ["rx", f"2;255;3;0;{wake_t};7\n"]]
                 yield {"pair": [old, new], "metric": True, "registry": ENUM_REGISTRY, "ops": ops}
+    # the application re-uses one Message object (changing its child, type or payload between sends); a newer command for a key is
+    # sent while the wake that releases the older one is still writing on a slow link
+    for old, new in PAIRS:
+        wakes = [t for t in (22, 32) if t <= INTERNAL_MAX[old] and not (t == 22 and new == "2.2")]
+        for wake_t in wakes or [None]:
+            first = [["rx", f"2;255;3;0;{wake_t};5\n"]] if wake_t else []
+            later = [["rx", f"2;255;3;0;{wake_t};6\n"], ["rx", f"2;255;3;0;{wake_t};7\n"]] if wake_t else [["rx", "2;0;2;0;0;\n"]]
+            for second in ([2, 1, 1, 0, 0, "on"], [2, 0, 1, 0, 2, "on"], [2, 0, 1, 0, 0, "off"], [1, 0, 1, 0, 0, "on"], [2, 0, 1, 1, 0, "on"]):
+                for buffer in (None, False):
+                    ops = first + [["send", [2, 0, 1, 0, 0, "on"], buffer, "slot"], ["send", second, buffer, "slot"]] + later + [["send", [2, 0, 1, 0, 0, "again"], None, "slot"]] + later
+                    yield {"pair": [old, new], "metric": True, "registry": ENUM_REGISTRY, "ops": ops}
+            if wake_t and not (old.startswith("1") and new.startswith("2")):
+                for newer in ([2, 0, 1, 0, 0, "newer"], [2, 1, 1, 0, 0, "other key"], [2, 0, 1, 0, 2, "other type"]):
+                    ops = first + [["send", [2, 0, 1, 0, 0, "older"], None], ["send", [2, 1, 1, 0, 2, "second"], None], ["rx_race", f"2;255;3;0;{wake_t};6\n", newer]] + later
+                    yield {"pair": [old, new], "metric": True, "registry": ENUM_REGISTRY, "ops": ops}
     # what an application sends to a node that is asleep / awake / unknown, every command kind, then the node wakes
     for old, new in PAIRS:
         wakes = [t for t in (22, 32) if t <= INTERNAL_MAX[old] and not (t == 22 and new == "2.2")]
@@ -250,8 +267,12 @@ def _run_case(case: dict) -> Outcome:
             env.install_registry(gateway.nodes, case["registry"])
             gateways.append((gateway, transport))
         shadow = RefController(old, registry=case["registry"]) if cross else None
+        objects: dict = {}
         for idx, op in enumerate(case["ops"]):
             where = f"step {idx} {op!r} under {old} vs {new}"
+            if op[0] == "rx_race" and shadow is not None:
+                info["skipped"] += 1
+                continue  # (races are compared between versions of the same generation only)
             if op[0] == "rx" and shadow is not None:
                 pred = shadow.rx(op[1])
                 if any(o.startswith("missing") for o in pred.outcomes):
@@ -262,10 +283,28 @@ def _run_case(case: dict) -> Outcome:
                     transport.fail_attempts = {len(transport.attempts)}  # the next write attempt of each gateway fails
                 continue
             results = []
-            for gateway, transport in gateways:
+            for gidx, (gateway, transport) in enumerate(gateways):
                 transport.step = idx
-                if op[0] == "send":
+                if op[0] == "send" and len(op) > 3:
+                    # the application keeps one Message object per slot and sets its fields before every send (op[3] = slot)
+                    slot = objects.setdefault((gidx, op[3]), env.mk_message(op[1]))
+                    slot.node_id, slot.child_id, slot.command, slot.ack, slot.message_type, slot.payload = op[1]
+                    status, value = await env.send(gateway, slot, op[2])
+                elif op[0] == "send":
                     status, value = await env.send(gateway, env.mk_message(op[1]), op[2])
+                elif op[0] == "rx_race":
+                    # the line is being handled (its first write takes a moment on a slow link) when the application sends op[2]
+                    transport.delay = 0.001
+                    receiving = asyncio.ensure_future(env.rx(gateway, op[1]))
+                    for _ in range(50):
+                        if getattr(transport, "delaying", 0) or receiving.done():
+                            break
+                        await asyncio.sleep(0)
+                    transport.delay = 0.0
+                    raced = await env.send(gateway, env.mk_message(op[2]), None)
+                    status, value = await receiving
+                    if raced[0] != "ok":
+                        status, value = raced
                 else:
                     status, value = await env.rx(gateway, op[1])
                 results.append((_describe(status, value), _norm_writes(transport.writes_at(idx)), env.snapshot(gateway.nodes), status, value, _times(transport.writes_at(idx))))
@@ -277,7 +316,7 @@ def _run_case(case: dict) -> Outcome:
                 parts = op[1].split(";")
                 if len(parts) >= 6 and parts[2] == "3" and plain_int(parts[4]):
                     info["itypes"].add(int(parts[4]))
-            kind = "send" if op[0] == "send" else drive._msgkind(shadow.rx(op[1]).fields if shadow else RefController(old).rx(op[1]).fields)
+            kind = "send" if op[0] == "send" else "race" if op[0] == "rx_race" else drive._msgkind(shadow.rx(op[1]).fields if shadow else RefController(old).rx(op[1]).fields)
             if d_old != d_new:
                 return fail(f"outcome-differs:{kind}:{old}->{new}", f"{where}: {old} gives {d_old} ({v_old!r}), {new} gives {d_new} ({v_new!r})")
             if w_old != w_new:
@@ -288,6 +327,8 @@ def _run_case(case: dict) -> Outcome:
             if s_old != s_new:
                 diff = drive._first_diff(s_old, s_new)
                 return fail(f"registry-differs:{kind}:{old}->{new}", f"{where}: at {diff[1]}: {old} has {diff[2]!r}, {new} has {diff[3]!r}")
+            if op[0] == "rx_race":
+                continue
             if shadow is not None and op[0] == "rx":
                 pred = shadow.rx(op[1])
                 outcome = d_old[0]
